@@ -49,6 +49,13 @@ static void exercise(carquet_reader_t* rd, const char* modename) { carquet_error
                 (void)touch_values(ltype[c], es, vals, nn); if (reps) for (int64_t q = 0; q < n; q++) (void)reps[q]; delivered += n; v_count("rows_delivered_from_mutants"); }
             free(vals); free(defs); free(reps); if (n <= 0) { if (n < 0) v_count("read_errors"); break; } }
         carquet_column_reader_free(cr); v_count("column_readers_exercised"); }
+    /* lookups of names that are not in the schema, of lengths that put the formatted message at and beyond every edge of the error
+     * struct (message[256] inside a 304-byte struct): the struct lives in an exact-size heap block, so a byte written past it is seen */
+    if (vrng_chance(&R, 1, 4)) { static const int LEN[] = {1, 237, 238, 239, 281, 282, 283, 285, 700, 5000}; carquet_error_t* e2 = v_exact(sizeof *e2);
+        for (int q = 0; q < 10; q++) { char* nm = malloc((size_t)LEN[q] + 1); memset(nm, 'q', (size_t)LEN[q]); nm[LEN[q]] = 0; const char* names[1] = {nm}; carquet_batch_reader_config_t cfg; carquet_batch_reader_config_init(&cfg); cfg.column_names = names; cfg.num_column_names = 1; memset(e2, 0, sizeof *e2);
+            carquet_batch_reader_t* br = carquet_batch_reader_create(rd, &cfg, e2); v_count("unknown_long_name_lookups"); if (br) { if (s && carquet_schema_find_column(s, nm) < 0) viol("api:batch-reader-created-for-unknown-column-name", "len=%d", LEN[q]); carquet_batch_reader_free(br); } else check_err("batch_reader_create(by unknown name)", e2);
+            free(nm); }
+        free(e2); }
     /* batch reader */
     for (int variant = 0; variant < 3; variant++) { carquet_batch_reader_config_t cfg; carquet_batch_reader_config_init(&cfg); static const int bss[] = {1, 64, 65536}; cfg.batch_size = bss[variant]; cfg.num_threads = 1; int32_t proj[1] = {0}; if (variant == 1 && nc > 0) { cfg.column_indices = proj; cfg.num_columns = 1; }
         int usable = 1; for (int c = 0; c < nc && c < cap; c++) if (user_elem_size(ltype[c], ltl[c]) == 0) usable = 0; if (nc > cap) usable = 0; if (!usable && variant != 1) continue; if (variant == 1 && (nc == 0 || user_elem_size(ltype[0], ltl[0]) == 0)) continue;
